@@ -299,9 +299,13 @@ theorem fdt_attaches (rc : RxCfg) (o : ObjCfg) (hN : o.ks.isEmpty = false) (hfit
       simp only
       rw [finish_completed o _ _ h1 h2]; simp
 
+/-- the run of FDT completions `fs` leaves a listing instance among the last 10 of `fdt_current`:
+    fewer than 10 completions, or all of them list the object -/
+def KeepsAge (a : Nat) (fs : List Ev) : Prop := a + fs.length < 10 ∨ ∀ e, e ∈ fs → e = Ev.fdt true
+
 /-- no object yet: FDT instances only age the attachable one -/
 theorem run_fdts_none (rc : RxCfg) (o : ObjCfg) : ∀ (fs : List Ev) (st : OState) (a : Nat),
-    (∀ e, e ∈ fs → ∃ l, e = Ev.fdt l) → Inv c o [] st → st.obj = none → st.age = some a → a + fs.length < 10 →
+    (∀ e, e ∈ fs → ∃ l, e = Ev.fdt l) → Inv c o [] st → st.obj = none → st.age = some a → KeepsAge a fs →
     Inv c o [] (runObj c.canDecode rc o st fs) ∧ (runObj c.canDecode rc o st fs).obj = none ∧
       (runObj c.canDecode rc o st fs).age.isSome = true ∧
       (runObj c.canDecode rc o st fs).completes = st.completes := by
@@ -309,24 +313,29 @@ theorem run_fdts_none (rc : RxCfg) (o : ObjCfg) : ∀ (fs : List Ev) (st : OStat
   induction fs with
   | nil => intro st a _ hinv hobj hage _; simp [runObj, hinv, hobj, hage]
   | cons e es ih =>
-    intro st a hfs hinv hobj hage hlen
+    intro st a hfs hinv hobj hage hkeep
     obtain ⟨l, rfl⟩ := hfs e (List.mem_cons_self ..)
     unfold runObj
     have hst : stepObj c.canDecode rc o st (.fdt l) =
         { st with completed := st.completed && l, age := ageStep st.age l } := by
       simp only [stepObj, fdtEv, hobj]
     rw [hst]
-    simp only [List.length_cons] at hlen
-    have hage' : ∃ a', ageStep st.age l = some a' ∧ a' + es.length < 10 := by
+    have hage' : ∃ a', ageStep st.age l = some a' ∧ KeepsAge a' es := by
       rw [hage]; unfold ageStep
-      by_cases hl : l = true
-      · exact ⟨0, by simp [hl], by omega⟩
-      · have : a + 1 < 10 := by omega
-        exact ⟨a + 1, by simp [hl, this], by omega⟩
-    obtain ⟨a', ha', hlen'⟩ := hage'
+      rcases hkeep with hlen | hall
+      · simp only [List.length_cons] at hlen
+        by_cases hl : l = true
+        · exact ⟨0, by simp [hl], Or.inl (by omega)⟩
+        · have : a + 1 < 10 := by omega
+          exact ⟨a + 1, by simp [hl, this], Or.inl (by omega)⟩
+      · have hl : l = true := by
+          have := hall (Ev.fdt l) (List.mem_cons_self ..)
+          simpa using this
+        exact ⟨0, by simp [hl], Or.inr (fun e he => hall e (List.mem_cons_of_mem _ he))⟩
+    obtain ⟨a', ha', hkeep'⟩ := hage'
     have := ih { st with completed := st.completed && l, age := ageStep st.age l } a'
       (fun e he => hfs e (List.mem_cons_of_mem _ he))
-      ⟨by simp [hinv.notDone], by simp [hobj]⟩ (by simp [hobj]) ha' hlen'
+      ⟨by simp [hinv.notDone], by simp [hobj]⟩ (by simp [hobj]) ha' hkeep'
     simpa using this
 
 /-- the object's first packet finds an attachable FDT instance: it is created attached -/
@@ -385,7 +394,7 @@ theorem recoverable_core (rc : RxCfg) (o : ObjCfg) (hN : o.ks.isEmpty = false) (
     (hgen : ∀ s, Ev.pkt s ∈ pre ++ Ev.fdt true :: post → Genuine o s)
     (hpre : ∀ s, Ev.pkt s ∈ pre → s.close = false)
     (hatt : (∃ s, Ev.pkt s ∈ pre) ∨
-      ∃ fs rest, post = fs ++ rest ∧ (∀ e, e ∈ fs → ∃ l, e = Ev.fdt l) ∧ fs.length < 10 ∧
+      ∃ fs rest, post = fs ++ rest ∧ (∀ e, e ∈ fs → ∃ l, e = Ev.fdt l) ∧ KeepsAge 0 fs ∧
         ∃ s rest', rest = Ev.pkt s :: rest')
     (hclose : CloseOK c o (pktSyms pre).reverse post)
     (hend : AllDec c o (pktSyms (pre ++ Ev.fdt true :: post))) :
@@ -434,7 +443,7 @@ theorem recoverable_core (rc : RxCfg) (o : ObjCfg) (hN : o.ks.isEmpty = false) (
           { (runObj c.canDecode rc o {} pre) with
               completed := (runObj c.canDecode rc o {} pre).completed && true,
               age := ageStep (runObj c.canDecode rc o {} pre).age true } 0 hfs
-          ⟨by simp [h1.notDone], by simp [hobj]⟩ (by simp [hobj]) (by simp [ageStep]) (by omega)
+          ⟨by simp [h1.notDone], by simp [hobj]⟩ (by simp [hobj]) (by simp [ageStep]) hlen
         obtain ⟨p1, p2, p3, _⟩ := hphase
         have hcl2 : CloseOK c o [] rest := closeOK_fdts c o [] fs rest hfs (by rw [← hpost]; exact hclose)
         subst hrest
